@@ -94,6 +94,28 @@ def run(tier):
         conc = concretise.Concretiser(seed * 1000 + 500 + j)
         check_behaviour(ck, conc, loads, h, "longwalk", per_step=False)
         ck.nontrivial(h[:-1])
+    # several blocks at the root: loads returns the list of their dicts, in source order (one block: the dict itself)
+    for j in range(0, min(len(hs) - 3, 90 if quick else 1200), 3):
+        group = [h for h in hs[j:j + (2 if j % 2 else 3)] if docs.root_type(h) != "symbolset"]   # SYMBOLSET is a whole-file form
+        if len(group) < 2:
+            continue
+        conc = concretise.Concretiser(seed * 1000 + 900 + j)
+        texts, exps = [], []
+        for h in group:
+            t, _ = concretise.assemble(conc.tokens(concretise.with_root(h, docs.root_type(h))))
+            texts.append(t)
+            exps.append(conc.expected(h[-1]["post"]))
+        text = "\n".join(texts)
+        ck.count()
+        try:
+            d = loads(text)
+        except Exception as ex:  # noqa: BLE001
+            ck.violation("C02|rejected|rootlist|%s" % type(ex).__name__, "a list of well-formed blocks at the root is rejected: %s" % str(ex)[:100], {"text": text})
+            continue
+        got = project.project(d)
+        df = project.diff(exps, got) if isinstance(got, list) else ((), "root-not-a-list", len(exps), type(d).__name__)
+        if df:
+            ck.violation("C02|%s|rootlist|%s" % (df[1], project.path_sig(df[0])), "root list differs from the contract: %r" % (df,), {"text": text})
     # the public per-call API on a sample (fresh worker objects)
     import mappyfile
     for j, h in enumerate(hs[:15 if quick else 100]):
